@@ -184,6 +184,11 @@ def run(ctx):
     ctx.extra_trusted = ["translator tools/tr_limiters.py (symbolic tracing of the executed code, fail closed; Python float literals taken exactly)",
                          "numpy elementwise semantics of + - * / abs minimum maximum and of boolean factors"]
     ctx.prove("C13")
+    # how the code FORMS the gradient ratios of the TVD correction (a / _fsign(x) with x a face gradient, then FL(.)) is traced
+    # symbolically and proved equal to the model's: that is what makes C13_fsign_ratio_bounded / C13_total statements about the code
+    from suites import symsuite
+    from common import run_suites
+    run_suites(ctx, ["symbolic"], runner=symsuite.run_suite, relevant=symsuite.relevant_for(['tvd', 'tvdfsarg']))
     try:
         suite_limiters(ctx, pf)
     except Exception:
